@@ -551,6 +551,7 @@ func (obj *Package) Export(name string) {
 			}
 		} else {
 			vv := newUnboundVar(name)
+			vv.Pkg = obj
 			vv.Export = true
 			vv.Pkg = obj
 			obj.vars[name] = vv
